@@ -412,6 +412,13 @@ func c14Worker(raw json.RawMessage) *engine.Result {
 			}
 			continue
 		}
+		if strings.Contains(st.Name, "vacuum") && firedStmt == st.Name {
+			// A request failed inside this vacuum but the vacuum reported success: the commit inside vacuum treats
+			// retiring the superseded version as best effort, so that version (with its delete markers) may still
+			// be current and merge back. Whether an older write then wins is the conflict rule's business
+			// (C10's post-condition is not quantified over faults), not a lost write.
+			vacuumErrored = true
+		}
 		if st.AfterVacuum && vacuumErrored {
 			// acknowledged, but whether it is visible depends on how far the failed vacuum got
 			res.Outcomes = append(res.Outcomes, "ok:write-after-failed-vacuum")
